@@ -17,7 +17,7 @@ import (
 	"verif/harness/gen"
 )
 
-const ruleC19 = "stateful: histories of <= 10 (thorough <= 30) Parse calls drawn from a pool of (path, config) descriptors: valid paths; paths failing at every grammar action (bad index integer, bad float, bad regexp, bad quoted name, unknown function, script, value-group operand, two '@' operands, trailing garbage after a prefix that already built nodes, garbage inside a nested filter); configs none / {f1=A} / {f1=B} (same name, different function) / {g1} / accessor / accessor+{f1=A}; plus 'modify the Config after Parse, then call the earlier function'. " +
+const ruleC19 = "stateful: histories of <= 10 (thorough <= 30) Parse calls drawn from a pool of (path, config) descriptors: valid paths; paths failing at every grammar action (bad index integer, bad float, bad regexp, bad quoted name, unknown function, script, value-group operand, two '@' operands, trailing garbage after a prefix that already built nodes, garbage inside a nested filter); configs none / {f1=A} / {f1=B} (same name, different function) / {g1} / accessor / accessor+{f1=A}; plus 'modify the Config after Parse, then call the earlier function', Parse with two Configs, Parse with the history's own []Config spread (configs[k:]...) and functions registered on its elements between calls, and Configs derived from another by copying the value and calling a setter on the copy. " +
 	"Oracle: the outcome of every call (nil or error type + text, and the returned function's behaviour on three probe documents: values, Accessor-ness, which f1 ran) equals the outcome of the same descriptor as the FIRST call of a fresh process (one exec per descriptor, cached). " +
 	"Non-trivial: a failing call is followed by a call with a different config, or a configured call by an unconfigured one using the same function name. Distinct = distinct history."
 
@@ -218,6 +218,21 @@ func drawC19(rt *rapid.T) *Case {
 			c.Ops = append(c.Ops, Op{Kind: "parse2", A: gen.Uniform(rt, "desc", len(descs)), B: 1 + gen.Uniform(rt, "second", c19Configs-1)})
 			continue
 		}
+		if i > 0 && gen.Uniform(rt, "slice", 8) == 0 {
+			// the history's own []Config, passed with "configs[k:]...", and functions registered on its
+			// elements between calls
+			if gen.Uniform(rt, "slicemod", 3) == 0 {
+				c.Ops = append(c.Ops, Op{Kind: "modslice", A: gen.Uniform(rt, "elem", c19Configs), B: gen.Uniform(rt, "how", 3)})
+			} else {
+				c.Ops = append(c.Ops, Op{Kind: "spread", A: gen.Uniform(rt, "desc", len(descs))})
+			}
+			continue
+		}
+		if i > 0 && gen.Uniform(rt, "derive", 10) == 0 {
+			// derived := base (a copy of the Config value), then a setter on the copy only
+			c.Ops = append(c.Ops, Op{Kind: "derive", A: 1 + gen.Uniform(rt, "base", c19Configs-1), B: gen.Uniform(rt, "what", 2)})
+			continue
+		}
 		// B = 1: a Config object built for this call only; B = 0: the history's own object for that
 		// configuration, reused by every call that names it (as a program would)
 		private := 0
@@ -236,6 +251,13 @@ func drawC19(rt *rapid.T) *Case {
 // (c.Ints) when a violation is reported and re-executed first on replay.
 var c19Ring []int
 
+// ring entries >= these bases stand for the other operation kinds (replayed on one []Config)
+const (
+	c19RingSpread   = 1000000
+	c19RingModSlice = 2000000
+	c19RingDerive   = 3000000
+)
+
 // c19Remember keeps every descriptor once, ordered by its last use: whatever state a call left
 // behind, the call that last set it and everything that ran after it are preserved, while the
 // thousands of repeated candidates rapid executes during shrinking cannot push it out.
@@ -253,8 +275,27 @@ func checkC19(c *Case, st *Stats) string {
 	descs := c19Descriptors()
 	if len(c.Ints) > 0 && len(c19Ring) == 0 {
 		// replay in a fresh process: rebuild the state the original process was in
+		replaySlice := make([]jsonpath.Config, c19Configs)
+		for k := 1; k < c19Configs; k++ {
+			cfg, _ := c19Config(k)
+			replaySlice[k] = *cfg
+		}
 		for _, i := range c.Ints {
-			_, _, _ = c19Outcome(descs[i%len(descs)])
+			switch {
+			case i >= c19RingDerive:
+				if base, _ := c19Config((i - c19RingDerive) / 10 % c19Configs); base != nil {
+					derived := *base
+					derived.SetAccessorMode()
+					_, _ = jsonpath.Parse("$.a.f1().g1()", derived)
+				}
+			case i >= c19RingModSlice:
+				applyC19Mod(&replaySlice[(i-c19RingModSlice)/10%c19Configs], (i-c19RingModSlice)%10)
+			case i >= c19RingSpread:
+				d := descs[(i-c19RingSpread)%len(descs)]
+				_, _ = jsonpath.Parse(d.Path, replaySlice[d.Cfg:]...)
+			default:
+				_, _, _ = c19Outcome(descs[i%len(descs)])
+			}
 			c19Remember(i)
 		}
 	}
@@ -283,6 +324,19 @@ func checkC19Ops(c *Case, st *Stats, descs []c19Desc) string {
 			shared[k], _ = c19Config(k)
 		}
 		return shared[k]
+	}
+	// the history's []Config: element k has the content of configuration k (element 0 is the zero Config)
+	var cfgSlice []jsonpath.Config
+	sliceMods := make([][]int, c19Configs)
+	theSlice := func() []jsonpath.Config {
+		if cfgSlice == nil {
+			cfgSlice = make([]jsonpath.Config, c19Configs)
+			for k := 1; k < c19Configs; k++ {
+				cfg, _ := c19Config(k)
+				cfgSlice[k] = *cfg
+			}
+		}
+		return cfgSlice
 	}
 	hist := ""
 	prevFailed, prevCfg := false, -1
@@ -341,6 +395,66 @@ func checkC19Ops(c *Case, st *Stats, descs []c19Desc) string {
 			if msg := parseOutcome(f, err); msg != "" {
 				return fmt.Sprintf("operation %d: Parse with two Configs: %s", step, msg)
 			}
+		case "spread":
+			i := op.A % len(descs)
+			d := descs[i]
+			sl := theSlice()
+			Journal(c.Check, d.Path, "", fmt.Sprintf("cfg=%d spread", d.Cfg))
+			f, err := jsonpath.Parse(d.Path, sl[d.Cfg:]...)
+			c19Remember(c19RingSpread + i)
+			st.Eval(1)
+			st.Class("op:parse-with-spread-slice")
+			hist += fmt.Sprintf("Parse(%q, configs[%d:]...) ", d.Path, d.Cfg)
+			if msg := parseOutcome(f, err); msg != "" {
+				return fmt.Sprintf("operation %d: Parse with a spread []Config: %s", step, msg)
+			}
+			if len(sliceMods[d.Cfg]) == 0 {
+				// the first element decides (documented: one Config); unmodified it is configuration d.Cfg
+				want, berr := c19Baseline(i)
+				if berr != nil {
+					return "harness: baseline of descriptor failed: " + berr.Error()
+				}
+				got := ""
+				switch {
+				case err != nil:
+					got = "error " + reflect.TypeOf(err).String() + ": " + err.Error()
+				default:
+					got = "ok" + c19Behaviour(f)
+				}
+				if got != want {
+					return fmt.Sprintf("operation %d: Parse(%q, configs[%d:]...) after the history [%s] gives\n   %s\nbut Parse with that one Config as the first call of a fresh process gives\n   %s", step, d.Path, d.Cfg, hist, got, want)
+				}
+			}
+		case "modslice":
+			sl := theSlice()
+			k := op.A % len(sl)
+			applyC19Mod(&sl[k], op.B)
+			c19Remember(c19RingModSlice + k*10 + op.B)
+			sliceMods[k] = append(sliceMods[k], op.B)
+			hist += fmt.Sprintf("modify configs[%d] (%d) ", k, op.B)
+			st.Class("op:modify-slice-element")
+		case "derive":
+			base := sharedCfg(op.A)
+			if base == nil {
+				continue
+			}
+			derived := *base
+			what := "SetAccessorMode"
+			switch {
+			case op.B == 0 && op.A != 4 && op.A != 5:
+				derived.SetAccessorMode()
+			case op.A == 3 || op.A == 4:
+				// the base has no filter function table yet: the copy gets its own
+				what = "SetFilterFunction(f1)"
+				derived.SetFilterFunction("f1", c19Tagger("f1-DERIVED"))
+			default:
+				what = "SetAggregateFunction(g1)"
+				derived.SetAggregateFunction("g1", func([]interface{}) (interface{}, error) { return "g1-DERIVED", nil })
+			}
+			_, _ = jsonpath.Parse("$.a.f1().g1()", derived)
+			c19Remember(c19RingDerive + op.A*10 + op.B)
+			hist += fmt.Sprintf("derived := cfg%d; derived.%s; Parse(.., derived) ", op.A, what)
+			st.Class("op:derive-config-by-copy")
 		case "modcfg":
 			if len(live) == 0 {
 				continue
